@@ -19,13 +19,38 @@ type replaySpec struct {
 	File    string // template under /verif/replay
 	PkgDir  string // package directory relative to the repo
 	FuncSub string // only for obligations whose function key contains this ("" = all)
+	Race    bool   // thorough tier (or VERIF_HARNESS_RACE=1): run under Go's race detector; a reported data race is a failure
 }
+
+// replayRace: set by the thorough tier
+var replayRace = os.Getenv("VERIF_HARNESS_RACE") != ""
 
 var replays = map[string][]replaySpec{
 	"C08": {{Test: "TestVerifReplayC08", File: "C08_test.go", PkgDir: "prover"}},
 	"C10": {{Test: "TestVerifReplayC10", File: "C10_test.go", PkgDir: "prover"}},
 	"C18": {{Test: "TestVerifReplayC18", File: "C18_test.go", PkgDir: "poseidon_tree"}},
+	"C16": {{Test: "TestVerifReplayC16", File: "C16_test.go", PkgDir: "prover"}},
+	"C03": {{Test: "TestVerifReplayC03", File: "PROVER_test.go", PkgDir: "prover"}},
+	"C06": {{Test: "TestVerifReplayC06", File: "PROVER_test.go", PkgDir: "prover"}},
+	"C04": {{Test: "TestVerifReplayC04", File: "KECCAK_test.go", PkgDir: "prover/keccak"}},
+	"C05": {{Test: "TestVerifReplayC05", File: "POSEIDON_test.go", PkgDir: "prover/poseidon"}},
+	"C19": {{Test: "TestVerifReplayC19", File: "CLI_test.go", PkgDir: "logging"}},
+	"C01": {{Test: "TestVerifReplayC01", File: "PROVER_test.go", PkgDir: "prover"}},
+	"C02": {{Test: "TestVerifReplayC02", File: "PROVER_test.go", PkgDir: "prover"}},
+	"C09": {{Test: "TestVerifReplayC09", File: "SRV_test.go", PkgDir: "server"}},
+	"C13": {{Test: "TestVerifReplayC13", File: "SRV_test.go", PkgDir: "server", Race: true}},
+	"C14": {{Test: "TestVerifReplayC14", File: "SRV_test.go", PkgDir: "server"}, {Test: "TestVerifReplayC14cli", File: "CLI_test.go", PkgDir: "logging"}},
+	"C20": {{Test: "TestVerifReplayC20", File: "SRV_test.go", PkgDir: "server"}},
+	"C07": {{Test: "TestVerifReplayC07", File: "PROVER_test.go", PkgDir: "prover"}},
+	"C11": {{Test: "TestVerifReplayC11", File: "PROVER_test.go", PkgDir: "prover"}},
+	"C12": {{Test: "TestVerifReplayC12", File: "PROVER_test.go", PkgDir: "prover"}, {Test: "TestVerifReplayC12cli", File: "CLI_test.go", PkgDir: "logging"}},
+	"C15": {{Test: "TestVerifReplayC15", File: "PROVER_test.go", PkgDir: "prover"}},
 }
+
+var harnessRuns = map[string]struct {
+	failing, out string
+	ran          bool
+}{}
 
 var modelRe = regexp.MustCompile(`\(define-fun\s+(\S+)\s+\(\)\s+Int\s+(\(-\s*)?([0-9]+)`)
 
@@ -46,10 +71,33 @@ func modelInts(model string) map[string]string {
 func runReplay(repo, prop string, o *Obligation) (failing string, output string, ran bool) {
 	specs := replays[prop]
 	for _, rs := range specs {
-		if rs.FuncSub != "" && !strings.Contains(o.Func, rs.FuncSub) {
+		if rs.FuncSub != "" && o.Func != "" && !strings.Contains(o.Func, rs.FuncSub) {
 			continue
 		}
-		dir := filepath.Join(workDir, "replay-"+prop)
+		// one run per harness and check: the sweep does not depend on which obligation failed (solver-model values are
+		// taken from the first failed obligation that has a model)
+		key := prop + "/" + rs.Test
+		c, hit := harnessRuns[key]
+		if !hit {
+			c.failing, c.out, c.ran = runReplaySpec(repo, prop, rs, o)
+			harnessRuns[key] = c
+		}
+		f, out, r := c.failing, c.out, c.ran
+		output += out
+		ran = ran || r
+		if f != "" {
+			return f, output, true
+		}
+	}
+	if !ran && output == "" {
+		output = fmt.Sprintf("no replay harness registered for %s", prop)
+	}
+	return "", output, ran
+}
+
+func runReplaySpec(repo, prop string, rs replaySpec, o *Obligation) (failing string, output string, ran bool) {
+	{
+		dir := filepath.Join(workDir, "replay-"+prop+"-"+rs.Test)
 		os.MkdirAll(dir, 0o755)
 		// private copies of go.mod/go.sum so that /repo is never modified
 		for _, f := range []string{"go.mod", "go.sum"} {
@@ -64,8 +112,16 @@ func runReplay(repo, prop string, o *Obligation) (failing string, output string,
 		ov, _ := json.Marshal(map[string]interface{}{"Replace": map[string]string{target: src}})
 		ovFile := filepath.Join(dir, "overlay.json")
 		os.WriteFile(ovFile, ov, 0o644)
-		cmd := exec.Command("go", "test", "-modfile="+filepath.Join(dir, "go.mod"), "-overlay="+ovFile, "-vet=off", "-count=1",
-			"-timeout", "300s", "-v", "-run", "^"+rs.Test+"$", "./"+rs.PkgDir)
+		targs := []string{"test", "-modfile=" + filepath.Join(dir, "go.mod"), "-overlay=" + ovFile, "-vet=off", "-count=1"}
+		wall := 360 * time.Second
+		if rs.Race && replayRace {
+			targs = append(targs, "-race", "-timeout", "900s")
+			wall = 960 * time.Second
+		} else {
+			targs = append(targs, "-timeout", "300s")
+		}
+		targs = append(targs, "-v", "-run", "^"+rs.Test+"$", "./"+rs.PkgDir)
+		cmd := exec.Command("go", targs...)
 		cmd.Dir = repo
 		model := "{}"
 		if o.Res != nil && o.Res.Model != "" {
@@ -73,7 +129,7 @@ func runReplay(repo, prop string, o *Obligation) (failing string, output string,
 			model = string(b)
 		}
 		cmd.Env = append(os.Environ(), "GOFLAGS=-mod=mod", "GOPROXY=off", "GOSUMDB=off", "GOTOOLCHAIN=local", "VERIF_REPLAY_MODEL="+model,
-			"VERIF_REPLAY_OBLIGATION="+o.Name)
+			"VERIF_REPLAY_OBLIGATION="+o.Name, "VERIF_REPLAY_MODFILE="+filepath.Join(dir, "go.mod"))
 		var buf bytes.Buffer
 		cmd.Stdout = &buf
 		cmd.Stderr = &buf
@@ -81,18 +137,26 @@ func runReplay(repo, prop string, o *Obligation) (failing string, output string,
 		go func() { done <- cmd.Run() }()
 		select {
 		case <-done:
-		case <-time.After(360 * time.Second):
+		case <-time.After(wall):
 			cmd.Process.Kill()
 		}
 		output = buf.String()
+		if i := strings.Index(output, "WARNING: DATA RACE"); i >= 0 {
+			rep := output[i:]
+			if len(rep) > 2500 {
+				rep = rep[:2500]
+			}
+			b, _ := json.Marshal(map[string]interface{}{"function": rs.Test, "error": "Go's race detector reports a data race while overlapping requests are served", "race_report": rep})
+			return string(b), output, true
+		}
 		for _, l := range strings.Split(output, "\n") {
 			if strings.HasPrefix(l, "REPLAY-FAIL ") {
 				return strings.TrimPrefix(l, "REPLAY-FAIL "), output, true
 			}
 		}
-		return "", output, true
+		// a harness that did not get as far as its verdict (build failure, timeout) has not run
+		return "", output, strings.Contains(output, "REPLAY-OK")
 	}
-	return "", fmt.Sprintf("no replay harness registered for %s", prop), false
 }
 
 
